@@ -1,7 +1,8 @@
 #!/bin/sh
-# check.sh <property-id> <quick|thorough>
+# check.sh <property-id> [quick|thorough]
 # Rebuilds goatsim against /repo's current working tree (hooks on) and runs one check.
 # exit 0: property held on everything explored; 1: VIOLATION line printed; 2: infrastructure trouble.
+DIR=$(cd "$(dirname "$0")" && pwd)
 ID="$1"; TIER="${2:-${VERIF_TIER:-quick}}"
-/verif/build.sh || exit 2
-exec /verif/bin/goatsim run "$ID" --tier "$TIER" --verif /verif
+"$DIR/build.sh" || exit 2
+exec "$DIR/bin/goatsim" run "$ID" --tier "$TIER" --verif "$DIR"
